@@ -1,17 +1,31 @@
 (* C20 correspondence: the model's result on a case versus what the harness observed on the real
    qmi.utils.adbasic_parser / qmi.utils.adwin_manager.AdwinProcess (over a simulated ADwin).
-   Case folding is instantiated with ASCII upper/lower (the generator emits ASCII identifiers). *)
+   Case folding is instantiated with ASCII upper/lower (the generator emits ASCII identifiers).
+
+   What is compared is what property C20 fixes, nothing more:
+   * bindings as MAPS (name -> descriptor, array name -> Data index), not as ordered lists;
+     a rejection as (ParseException, file, line);
+   * symbol lists modulo repeated inclusion of a file: both sides are normalised with [dedup_syms]
+     (theorem C20_repeated_symbols_ignored: the analysis cannot tell the difference);
+   * a circular include graph (the pinned traversal runs out of fuel; /repo loops forever): the
+     observation may be "did not terminate" (code 98) or the result on the acyclic unfolding
+     ([parse_prog_once]) — termination is left open by C20;
+   * a batch read returns a map: every key is a requested name carrying the value a single get_par of
+     that name returns, and every requested name is represented by a key equal to it up to case
+     (for names pairwise distinct up to case this is exactly {name: get_par(name)}; when the same
+     parameter is requested under two spellings the property does not say which spellings are keys);
+   * per call of an accessor: the SET of registers read and the SET of registers written on the ADwin
+     (not the order or the grouping into driver calls), plus the register contents at the end;
+   * a batch accessor that fails (unknown name, non-int for Par): the exception class only; the
+     prefix of effects it leaves behind is not fixed, comparison of the history stops there. *)
 Require Export QV.Lib.Corr QV.C20.Model.
 Local Open Scope N_scope.
 
 Inductive pobs :=
-| PBinding (p : list (str * desc)) (d : list (str * N))   (* dicts in insertion order *)
+| PBinding (p : list (str * desc)) (d : list (str * N))   (* the two dicts (items in any order) *)
 | PErr (f : str) (l : N)                                  (* ParseException(filename, line_nr) *)
-| POther (code : N).                                      (* 1 FileNotFoundError, 2 ValueError, 99 fuel *)
+| POther (code : N).                                      (* 1 FileNotFoundError, 2 ValueError, 98 no termination, 99 fuel *)
 
-Definition sym_eqb (a b : symbol) : bool :=
-  str_eqb (s_file a) (s_file b) && (s_line a =? s_line b) && str_eqb (s_label a) (s_label b)
-  && str_eqb (s_value a) (s_value b).
 Definition value_eqb (a b : value) : bool :=
   match a, b with
   | VInt x, VInt y => Z.eqb x y
@@ -28,10 +42,18 @@ Definition call_eqb (a b : call) : bool :=
   | CSetData d s vs, CSetData d' s' ws => (d =? d') && (s =? s') && list_eqb value_eqb vs ws
   | _, _ => false
   end.
+
+(* equality of two dicts given by their items (keys unique on both sides) *)
+Definition map_eqb {K V} (keqb : K -> K -> bool) (veqb : V -> V -> bool) (a b : list (K * V)) : bool :=
+  Nat.eqb (length a) (length b)
+  && forallb (fun kv => option_eqb veqb (dget keqb (fst kv) b) (Some (snd kv))) a.
+Definition subset_b {A} (eqb : A -> A -> bool) (a b : list A) : bool :=
+  forallb (fun x => existsb (eqb x) b) a.
+Definition set_eqb {A} (eqb : A -> A -> bool) (a b : list A) : bool := subset_b eqb a b && subset_b eqb b a.
+
 Definition pobs_eqb (a b : pobs) : bool :=
   match a, b with
-  | PBinding p d, PBinding p' d' =>
-      list_eqb (pair_eqb str_eqb desc_eqb) p p' && list_eqb (pair_eqb str_eqb N.eqb) d d'
+  | PBinding p d, PBinding p' d' => map_eqb str_eqb desc_eqb p p' && map_eqb str_eqb N.eqb d d'
   | PErr f l, PErr f' l' => str_eqb f f' && (l =? l')
   | POther c, POther c' => c =? c'
   | _, _ => false
@@ -44,11 +66,28 @@ Definition model_analyze (syms : list symbol) : pobs :=
   | Crash => POther 2
   end.
 
-Definition model_prog (fs : list (path * list str)) (main incdir : path) : option (list symbol) * pobs :=
-  match parse_prog 300 fs incdir [main] with
+Definition pres_out (r : pres) : option (list symbol) * pobs :=
+  match r with
   | POk syms => (Some syms, model_analyze syms)
   | PNoFile _ => (None, POther 1)
   | POutOfFuel => (None, POther 99)
+  end.
+(* pinned traversal (re-parses repeated includes) and the parse-once traversal *)
+Definition model_prog (fs : list (path * list str)) (main incdir : path) : option (list symbol) * pobs :=
+  pres_out (parse_prog 300 fs incdir [main]).
+Definition model_prog_once (fs : list (path * list str)) (main incdir : path) : option (list symbol) * pobs :=
+  pres_out (parse_prog_once 300 fs incdir [normalize main] [main]).
+
+Definition prog_ok (fs : list (path * list str)) (main incdir : path) (osyms : option (list symbol)) (obs : pobs) : bool :=
+  match parse_prog 300 fs incdir [main] with
+  | POutOfFuel =>
+      match obs with
+      | POther 98 => true
+      | _ => pobs_eqb (snd (model_prog_once fs main incdir)) obs
+      end
+  | r =>
+      let '(s, res) := pres_out r in
+      option_eqb (list_eqb sym_eqb) (option_map dedup_syms s) (option_map dedup_syms osyms) && pobs_eqb res obs
   end.
 
 Inductive dop := DGet (n : str) | DSet (n : str) (v : value) | DGetM (ns : list str) | DSetM (ps : list (str * value)).
@@ -58,7 +97,7 @@ Definition dobs_eqb (a b : dobs) : bool :=
   match a, b with
   | OVal v, OVal w => value_eqb v w
   | ONone, ONone => true
-  | ODict k, ODict k' => list_eqb (pair_eqb str_eqb value_eqb) k k'
+  | ODict k, ODict k' => map_eqb str_eqb value_eqb k k'
   | OValueError, OValueError => true
   | OTypeError, OTypeError => true
   | _, _ => false
@@ -75,50 +114,77 @@ Definition dstep (b : list (str * desc)) (dv : dev) (o : dop) : dev * dobs :=
   | DSetM ps => let '(d, r) := set_par_multiple ascii_lower b ps dv in (d, conv (fun _ => ONone) r)
   end.
 
-Fixpoint drun (b : list (str * desc)) (dv : dev) (ops : list dop) : dev * list dobs :=
-  match ops with
-  | [] => (dv, [])
-  | o :: r => let '(d1, x) := dstep b dv o in let '(d2, xs) := drun b d1 r in (d2, x :: xs)
-  end.
-
 Definition init_dev (init : list (reg * value)) : dev :=
   mkDev (fun r => match dget reg_eqb r init with Some v => v | None => VBad end) [].
 
-(* outputs, call log, contents of the registers listed in [probe] *)
-Definition model_dev (b : list (str * desc)) (init : list (reg * value)) (ops : list dop) (probe : list reg)
-  : list dobs * list call * list value :=
-  let '(d, outs) := drun b (init_dev init) ops in (outs, log d, map (regs d) probe).
+(* registers touched by a list of driver calls: (read set, written set) must agree *)
+Definition touch_eqb (a b : list call) : bool :=
+  set_eqb reg_eqb (flat_map reads_of_call a) (flat_map reads_of_call b)
+  && set_eqb reg_eqb (map fst (flat_map writes_of_call a)) (map fst (flat_map writes_of_call b)).
+
+(* the dict a batch read may return for the request ns in state dv (see header) *)
+Definition read_dict_ok (b : list (str * desc)) (dv : dev) (ns : list str) (kv : list (str * value)) : bool :=
+  forallb (fun e => existsb (str_eqb (fst e)) ns
+                    && match snd (get_par ascii_lower b (fst e) dv) with ROk v => value_eqb v (snd e) | _ => false end) kv
+  && forallb (fun n => existsb (fun e => str_eqb (ascii_lower (fst e)) (ascii_lower n)) kv) ns.
+
+Definition is_err (x : dobs) : bool := match x with OValueError | OTypeError => true | _ => false end.
+Definition is_batch (o : dop) : bool := match o with DGetM _ | DSetM _ => true | _ => false end.
+
+Definition out_ok (b : list (str * desc)) (dv : dev) (o : dop) (xm x : dobs) : bool :=
+  match o, xm, x with
+  | DGetM ns, ODict _, ODict kv => read_dict_ok b dv ns kv
+  | _, _, _ => dobs_eqb xm x
+  end.
+
+(* history check; obs = per call (result, driver calls made during it); final = register contents at the end *)
+Fixpoint dcheck (b : list (str * desc)) (dv : dev) (ops : list dop) (obs : list (dobs * list call))
+         (final : list (reg * value)) : bool :=
+  match ops, obs with
+  | [], [] => list_eqb value_eqb (map (regs dv) (map fst final)) (map snd final)
+  | o :: ops', (x, cs) :: obs' =>
+      let '(dv', xm) := dstep b dv o in
+      if is_batch o && is_err xm then dobs_eqb xm x
+      else out_ok b dv o xm x && touch_eqb (skipn (length (log dv)) (log dv')) cs && dcheck b dv' ops' obs' final
+  | _, _ => false
+  end.
+
+(* for replays: the pinned model's outputs, driver calls per accessor call, registers at the probes *)
+Fixpoint drun (b : list (str * desc)) (dv : dev) (ops : list dop) : dev * list (dobs * list call) :=
+  match ops with
+  | [] => (dv, [])
+  | o :: r =>
+      let '(d1, x) := dstep b dv o in
+      let '(d2, xs) := drun b d1 r in (d2, (x, skipn (length (log dv)) (log d1)) :: xs)
+  end.
 
 Inductive case :=
 | KSyms (syms : list symbol) (obs : pobs)
 | KProg (fs : list (path * list str)) (main incdir : path) (osyms : option (list symbol)) (obs : pobs)
 | KRanges (l : list N) (obs : list (N * N))
 | KDev (b : list (str * desc)) (init : list (reg * value)) (ops : list dop)
-       (obs : list dobs) (olog : list call) (ofinal : list (reg * value)).
+       (obs : list (dobs * list call)) (ofinal : list (reg * value)).
 
 Inductive mout :=
 | MSyms (r : pobs)
-| MProg (s : option (list symbol)) (r : pobs)
+| MProg (s : option (list symbol)) (r : pobs) (once : pobs)
 | MRanges (r : list (N * N))
-| MDev (outs : list dobs) (lg : list call) (final : list value).
+| MDev (outs : list (dobs * list call)) (final : list value).
 
 Definition model_out (c : case) : mout :=
   match c with
   | KSyms syms _ => MSyms (model_analyze syms)
-  | KProg fs main incdir _ _ => let '(s, r) := model_prog fs main incdir in MProg s r
+  | KProg fs main incdir _ _ =>
+      let '(s, r) := model_prog fs main incdir in MProg s r (snd (model_prog_once fs main incdir))
   | KRanges l _ => MRanges (find_ranges l)
-  | KDev b init ops _ _ ofinal =>
-      let '(o, l, f) := model_dev b init ops (map fst ofinal) in MDev o l f
+  | KDev b init ops _ ofinal =>
+      let '(d, outs) := drun b (init_dev init) ops in MDev outs (map (regs d) (map fst ofinal))
   end.
 
 Definition check_case (c : case) : bool :=
   match c with
   | KSyms syms obs => pobs_eqb (model_analyze syms) obs
-  | KProg fs main incdir osyms obs =>
-      let '(s, r) := model_prog fs main incdir in
-      option_eqb (list_eqb sym_eqb) s osyms && pobs_eqb r obs
+  | KProg fs main incdir osyms obs => prog_ok fs main incdir osyms obs
   | KRanges l obs => list_eqb (pair_eqb N.eqb N.eqb) (find_ranges l) obs
-  | KDev b init ops obs olog ofinal =>
-      let '(o, l, f) := model_dev b init ops (map fst ofinal) in
-      list_eqb dobs_eqb o obs && list_eqb call_eqb l olog && list_eqb value_eqb f (map snd ofinal)
+  | KDev b init ops obs ofinal => dcheck b (init_dev init) ops obs ofinal
   end.
